@@ -110,6 +110,32 @@ pub struct RunSpec {
     /// fault kind F9: per logical client, (call_no, kilobytes): that call is made from a caller frame that many
     /// kilobytes further down the thread's stack
     pub stack_depths: Vec<Vec<(u32, u32)>>,
+    /// fault kind F10: per logical client, the number of CPUs its OS thread is allowed to run on (0 = unrestricted)
+    pub cpu_limits: Vec<u32>,
+}
+
+/// restrict the calling thread to the first `n` CPUs of its current affinity mask (n = 0: leave it alone)
+fn limit_cpus(n: u32) -> bool {
+    if n == 0 {
+        return false;
+    }
+    unsafe {
+        let mut set: libc::cpu_set_t = std::mem::zeroed();
+        if libc::sched_getaffinity(0, std::mem::size_of::<libc::cpu_set_t>(), &mut set) != 0 {
+            return false;
+        }
+        let mut out: libc::cpu_set_t = std::mem::zeroed();
+        let mut kept = 0;
+        for cpu in 0..libc::CPU_SETSIZE as usize {
+            if libc::CPU_ISSET(cpu, &set) {
+                if kept < n {
+                    libc::CPU_SET(cpu, &mut out);
+                    kept += 1;
+                }
+            }
+        }
+        kept > 0 && libc::sched_setaffinity(0, std::mem::size_of::<libc::cpu_set_t>(), &out) == 0
+    }
 }
 
 /// run `f` from a frame roughly `bytes` further down the stack
@@ -208,7 +234,7 @@ struct St {
     vmono: i64,
     vreal: i64,
     clock_reads: u64,
-    f: [u64; 10],
+    f: [u64; 11],
     preempt_site: [u64; NSITES],
     pairs: [[u64; NSITES]; NSITES],
     work_differs: u64,
@@ -787,7 +813,7 @@ impl Shared {
             "sh": format!("{:016x}", st.sched.finish()),
             "calls": st.calls, "ticks": st.ticks, "bt": st.block_ticks, "shh": st.shared_hits, "fw": st.futex_waits, "rsc": st.rescued,
             "steps": st.step, "sw": st.switches,
-            "f": st.f[1..10].to_vec(),
+            "f": st.f[1..11].to_vec(),
             "cr": st.clock_reads,
             "ps": st.preempt_site.to_vec(),
             "pairs": pairs,
@@ -823,6 +849,9 @@ fn client_main(sh: &'static Shared, me: usize, start_call: usize) {
         });
         c.track_mem.set(matches!(sh.spec.policy, Policy::RaceDirected { .. }));
         tick::note_stack(c, STACK_BYTES);
+        if limit_cpus(sh.spec.cpu_limits.get(me).copied().unwrap_or(0)) && start_call == 0 {
+            sh.m.lock().unwrap().f[10] += 1;
+        }
         set_thread_hook(Some(tick::source_hook));
         {
             let mut st = sh.m.lock().unwrap();
@@ -959,7 +988,7 @@ pub fn run_child(pool: &Pool, spec: &RunSpec) -> ! {
         vmono: 0,
         vreal: 0,
         clock_reads: 0,
-        f: [0; 10],
+        f: [0; 11],
         preempt_site: [0; NSITES],
         pairs: [[0; NSITES]; NSITES],
         work_differs: 0,
